@@ -83,50 +83,55 @@ func checkGuardedBy(res *Result, p *Pub, E *Effects, rule, fnName, guardPattern 
 	res.check(n >= 1, rule, fnName, p.pos(fn), "the guarded effects exist", "no effectful call found after "+guardPattern)
 }
 
-func checkC06(res *Result) {
-	p := loadPub()
-	E := computeEffects(p)
-	res.Packages = []string{p.Pkg.PkgPath}
-	res.Explanation = "Decides, on all SSA paths, that the authority checks guard the effects and are checks of the right data: Update/Delete touch the Database only after mustHaveActivityOriginMatchObjects succeeded, which compares the Host field of the activity id with the Host field of every object id in a loop that cannot be left early except by failing; Accept updates 'following' only after a verification that reads the Follow from the local Database (not from the peer), requires it to be a Follow whose actor is the local actor, and requires every accepting actor among that stored Follow's objects; Undo calls the application only after every actor of every fetched undone activity was found among the Undo's own actors; the block check receives, for every actor, an id derived from that actor (IRI or embedded object's id). Value-level host semantics (case, sub-domains) are inherent in == on Host and not decided."
-	res.Rule("C06-R1", "origin check guards effects: in federating update/deleteFn every Database/Transport/callback effect lies in the success region of mustHaveActivityOriginMatchObjects(a)")
-	res.Rule("C06-R2", "host, every object: the comparison is between the Host fields of two *url.URL, one from GetId(activity), one from ToId(current object); the loop over objects is total (left early only by a failure return)")
-	res.Rule("C06-R3", "Accept: Following/Update only after the verifying closure succeeded; the closure returns nil only after Database.Get of the referenced id, IsOrExtendsFollow, the local actor found among the stored Follow's actors, and every accepting actor found among the stored Follow's objects")
-	res.Rule("C06-R4", "Undo: the application callback only after mustHaveActivityActorsMatchObjectActors succeeded; that function looks every actor of every fetched object up in a set built from the Undo's actors, in total loops")
-	res.Rule("C06-R5", "block check asks about the actors: every element appended to the slice passed to Blocked derives from the current actor element (its IRI or the id of the embedded value), the loop is total")
-	res.Rule("C06-R6", "error discipline over the inbox side-effect path (everything reachable from sideEffectActor.PostInbox and AuthorizePostInbox)")
-
-	mask := eDBW | eDBR | eDBLOCK | eTP | eCB
-	// R1
-	checkGuardedBy(res, p, E, "C06-R1", "FederatingWrappedCallbacks.update", "mustHaveActivityOriginMatchObjects", mask, "origin check")
-	checkGuardedBy(res, p, E, "C06-R1", "FederatingWrappedCallbacks.deleteFn", "mustHaveActivityOriginMatchObjects", mask, "origin check")
-	for _, n := range []string{"FederatingWrappedCallbacks.update", "FederatingWrappedCallbacks.deleteFn"} {
-		if fn := p.Func(n); fn != nil {
-			for _, c := range findCalls(E, fn, "mustHaveActivityOriginMatchObjects") {
-				res.check(isParamNamed(unwrap(c.Common().Args[0]), "a"), "C06-R1", n, p.pos(c), "the origin check is applied to the received activity", "argument is "+valueLabel(c.Common().Args[0]))
+// hostComparison: the comparison of two non-constant strings that are both the Host field of
+// a *url.URL, if fn has exactly one.
+func hostComparison(fn *ssa.Function) (*ssa.BinOp, int) {
+	var cmp *ssa.BinOp
+	n := 0
+	for _, b := range fn.Blocks {
+		for _, ins := range b.Instrs {
+			if bo, ok := ins.(*ssa.BinOp); ok && bo.X.Type().String() == "string" {
+				if _, isC := bo.X.(*ssa.Const); isC {
+					continue
+				}
+				if _, isC := bo.Y.(*ssa.Const); isC {
+					continue
+				}
+				cmp = bo
+				n++
 			}
 		}
 	}
+	return cmp, n
+}
 
-	// R2
-	if fn := p.MustFunc(res, "C06-R2", "mustHaveActivityOriginMatchObjects"); fn != nil {
-		ff := computeFacts(fn)
-		g := flowOf(fn)
-		var cmp *ssa.BinOp
-		n := 0
-		for _, b := range fn.Blocks {
-			for _, ins := range b.Instrs {
-				if bo, ok := ins.(*ssa.BinOp); ok && bo.X.Type().String() == "string" {
-					if _, isC := bo.X.(*ssa.Const); isC {
-						continue
-					}
-					if _, isC := bo.Y.(*ssa.Const); isC {
-						continue
-					}
-					cmp = bo
-					n++
-				}
+// originCheckHomes: the functions in which the origin comparison lives — the helper
+// mustHaveActivityOriginMatchObjects when it exists, plus federating update / deleteFn when the
+// comparison is written out in them.
+func originCheckHomes(p *Pub, E *Effects) []string {
+	var out []string
+	if p.HasFunc("mustHaveActivityOriginMatchObjects") {
+		out = append(out, "mustHaveActivityOriginMatchObjects")
+	}
+	for _, n := range []string{"FederatingWrappedCallbacks.update", "FederatingWrappedCallbacks.deleteFn"} {
+		if fn := p.Func(n); fn != nil && len(findCalls(E, fn, "mustHaveActivityOriginMatchObjects")) == 0 {
+			if _, k := hostComparison(fn); k >= 1 {
+				out = append(out, n)
 			}
 		}
+	}
+	return out
+}
+
+// checkOriginCompare: rule C06-R2 on the function that holds the comparison.
+func checkOriginCompare(res *Result, p *Pub, E *Effects, fn *ssa.Function) {
+	if fn == nil {
+		return
+	}
+	{
+		ff := computeFacts(fn)
+		g := flowOf(fn)
+		cmp, n := hostComparison(fn)
 		if cmp == nil || n != 1 {
 			res.bad("C06-R2", fname(fn), p.pos(fn), "exactly one comparison of two host strings", fmt.Sprintf("found %d string comparisons", n))
 		} else {
@@ -182,6 +187,56 @@ func checkC06(res *Result) {
 				res.check(okFail, "C06-R2", fname(fn), p.pos(cmp), "a host mismatch leads to a failure return", "no return confined to the mismatch edge returns a non-nil error")
 			}
 		}
+	}
+}
+
+func checkC06(res *Result) {
+	p := loadPub()
+	E := computeEffects(p)
+	res.Packages = []string{p.Pkg.PkgPath}
+	res.Explanation = "Decides, on all SSA paths, that the authority checks guard the effects and are checks of the right data: Update/Delete touch the Database only after mustHaveActivityOriginMatchObjects succeeded, which compares the Host field of the activity id with the Host field of every object id in a loop that cannot be left early except by failing; Accept updates 'following' only after a verification that reads the Follow from the local Database (not from the peer), requires it to be a Follow whose actor is the local actor, and requires every accepting actor among that stored Follow's objects; Undo calls the application only after every actor of every fetched undone activity was found among the Undo's own actors; the block check receives, for every actor, an id derived from that actor (IRI or embedded object's id). Value-level host semantics (case, sub-domains) are inherent in == on Host and not decided."
+	res.Rule("C06-R1", "origin check guards effects: in federating update/deleteFn every Database/Transport/callback effect lies in the success region of mustHaveActivityOriginMatchObjects(a)")
+	res.Rule("C06-R2", "host, every object: the comparison is between the Host fields of two *url.URL, one from GetId(activity), one from ToId(current object); the loop over objects is total (left early only by a failure return)")
+	res.Rule("C06-R3", "Accept: Following/Update only after the verifying closure succeeded; the closure returns nil only after Database.Get of the referenced id, IsOrExtendsFollow, the local actor found among the stored Follow's actors, and every accepting actor found among the stored Follow's objects")
+	res.Rule("C06-R4", "Undo: the application callback only after mustHaveActivityActorsMatchObjectActors succeeded; that function looks every actor of every fetched object up in a set built from the Undo's actors, in total loops")
+	res.Rule("C06-R5", "block check asks about the actors: every element appended to the slice passed to Blocked derives from the current actor element (its IRI or the id of the embedded value), the loop is total")
+	res.Rule("C06-R6", "error discipline over the inbox side-effect path (everything reachable from sideEffectActor.PostInbox and AuthorizePostInbox)")
+
+	mask := eDBW | eDBR | eDBLOCK | eTP | eCB
+	// R1
+	for _, n := range []string{"FederatingWrappedCallbacks.update", "FederatingWrappedCallbacks.deleteFn"} {
+		fn := p.Func(n)
+		if fn != nil && len(findCalls(E, fn, "mustHaveActivityOriginMatchObjects")) == 0 {
+			if cmp, k := hostComparison(fn); k == 1 {
+				// the check written out in the callback: every effect lies after the comparison loop
+				loop := loopBlocks(cmp.Block())
+				H := loopHeader(loop)
+				nEff := 0
+				for _, ci := range E.byFn[fn] {
+					if ci.Trans&mask == 0 {
+						continue
+					}
+					nEff++
+					ok := H != nil && H.Dominates(ci.Instr.Block()) && !loop[ci.Instr.Block()]
+					res.check(ok, "C06-R1", n, p.pos(ci.Instr), fmt.Sprintf("%s [%s] only after every object's host was compared with the activity's (origin check)", ci.Label, ci.Trans), "the effect is not confined to the region after the comparison loop")
+				}
+				res.check(nEff >= 1, "C06-R1", n, p.pos(fn), "the guarded effects exist", "no effectful call found")
+				continue
+			}
+		}
+		checkGuardedBy(res, p, E, "C06-R1", n, "mustHaveActivityOriginMatchObjects", mask, "origin check")
+	}
+	for _, n := range []string{"FederatingWrappedCallbacks.update", "FederatingWrappedCallbacks.deleteFn"} {
+		if fn := p.Func(n); fn != nil {
+			for _, c := range findCalls(E, fn, "mustHaveActivityOriginMatchObjects") {
+				res.check(isParamNamed(unwrap(c.Common().Args[0]), "a"), "C06-R1", n, p.pos(c), "the origin check is applied to the received activity", "argument is "+valueLabel(c.Common().Args[0]))
+			}
+		}
+	}
+
+	// R2
+	for _, name := range originCheckHomes(p, E) {
+		checkOriginCompare(res, p, E, p.Func(name))
 	}
 
 	// R3
